@@ -161,6 +161,9 @@ func newExecutor() *kmipserver.BatchExecutor {
 	return ex
 }
 
+// gapConfig: the replay pass against an executor configured with a set of versions that has a gap (1.0 and 1.4)
+var gapConfig bool
+
 // withIgnorableExt: every item carries a non-critical message extension (set by the replay pass that uses it)
 var withIgnorableExt bool
 
@@ -169,6 +172,13 @@ func buildRequest(rid int, q Req) *kmip.RequestMessage {
 	msg.Header.ProtocolVersion = kmip.V1_2
 	if q.Ver == "unsupported" {
 		msg.Header.ProtocolVersion = kmip.ProtocolVersion{ProtocolVersionMajor: 2, ProtocolVersionMinor: 0}
+	}
+	if gapConfig {
+		// the executor supports 1.0 and 1.4 only: 1.2 lies between two supported versions and is not one of them
+		msg.Header.ProtocolVersion = kmip.V1_4
+		if q.Ver == "unsupported" {
+			msg.Header.ProtocolVersion = kmip.V1_2
+		}
 	}
 	switch q.Opt {
 	case "Continue":
@@ -315,12 +325,19 @@ func TestReplay(t *testing.T) {
 	}
 	defer out.Close()
 	ex := newExecutor()
+	exGap := newExecutor()
+	exGap.SetSupportedProtocolVersions(kmip.V1_0, kmip.V1_4)
 	mism := 0
 	for n, c := range cases {
 		// batch semantics are a function of the request message: the same case with a live context, with a context that is already
 		// cancelled when the request arrives (the client has gone away) and with one cancelled by the first handler that runs
-		for _, ctxMode := range []string{"live", "cancelled", "cancelled-by-handler", "live+ignorable-extensions"} {
+		for _, ctxMode := range []string{"live", "cancelled", "cancelled-by-handler", "live+ignorable-extensions", "live+versions-with-a-gap"} {
 			withIgnorableExt = ctxMode == "live+ignorable-extensions"
+			gapConfig = ctxMode == "live+versions-with-a-gap"
+			ex := ex
+			if gapConfig {
+				ex = exGap
+			}
 			rid := n + 1
 			parent := context.Background()
 			var cancelFn context.CancelFunc
